@@ -28,4 +28,11 @@ Checks(class, checks) == LET f == FirstFail(checks, 1) IN V(f = "", class, f)
 Guarded(class, pre, rest) == LET f == FirstFail(pre, 1) IN IF f # "" THEN V(FALSE, class, f) ELSE Checks(class, rest)
 
 HasField(rec, f) == f \in DOMAIN rec
+
+\* A library call that panicked, or did not return within the per-vector deadline, is logged by the harness's
+\* exec loop as a "crash" line instead of the vector's ordinary observation.  Every property here is about
+\* results that calls return, so a crash is a rejected observation whatever the vector was.
+CrashVerdict(rec) == V(FALSE, "crash", IF rec.kind = "hang" THEN "the library did not return (no result within the per-call deadline)"
+                                       ELSE "the library panicked")
+JudgeOrCrash(rec, J(_)) == IF rec.ev = "crash" THEN CrashVerdict(rec) ELSE J(rec)
 =============================================================================
